@@ -3,5 +3,5 @@
 PF=$(realpath $1); PROP=${2:-all}
 W=$(mktemp -d /tmp/rt-XXXXXX); rsync -a --exclude .git /repo/ $W/
 (cd $W && GIT_CEILING_DIRECTORIES=/ git apply --whitespace=nowarn $PF) || { echo "PATCH DOES NOT APPLY"; rm -rf $W; exit 2; }
-FSDBCHECK_DUMP=${DUMP:-} /verif/bin/fsdbcheck -repo $W -prop $PROP -no-evidence | grep -E "^VIOLATION|^UNDECIDED|^OBLIGATION|^  |^SELFTEST" | sed 's#replay=.*##' | head -${LINES_MAX:-40}
+FSDBCHECK_DUMP=${DUMP:-} ${FSDBCHECK_BIN:-/verif/bin/fsdbcheck} -repo $W -prop $PROP -no-evidence | grep -E "^VIOLATION|^UNDECIDED|^OBLIGATION|^  |^SELFTEST" | sed 's#replay=.*##' | head -${LINES_MAX:-40}
 rm -rf $W
